@@ -192,3 +192,6 @@ register()
 
 import solver_props  # noqa: E402
 RUNNERS.update(solver_props.RUNNERS)
+
+import report_props  # noqa: E402
+RUNNERS.update(report_props.RUNNERS)
